@@ -11,9 +11,9 @@ import (
 	"net/http"
 	"net/textproto"
 	"net/url"
-	"runtime"
 	"sort"
 	"strings"
+	"sync"
 	"time"
 
 	"github.com/gorilla/websocket"
@@ -412,45 +412,37 @@ func (c *client) doWS(cr Concrete, id string) (Resp, []Seen, error) {
 }
 
 // oracle answers "what does a freshly constructed server return for this
-// request alone"; answers are memoised per concrete request.
+// request alone" - literally: a copy of this driver is started for the one
+// request (freshProcess: construct the server, serve, exit), so that nothing a
+// process may remember (transport.pool, any package-level value) is shared with
+// the servers under test.  Answers are memoised per (configuration, concrete
+// request); every fourth is confirmed by a second fresh process.
 type oracle struct {
-	memo  map[string]Resp
-	n     int
-	dirty bool // transport.pool may hold objects (only POST.Do puts any)
+	mu   sync.Mutex
+	memo map[string]Resp
+	n    int
 }
 
 func (o *oracle) alone(cr Concrete) (Resp, error) {
 	k := cr.key()
-	if r, ok := o.memo[k]; ok {
+	o.mu.Lock()
+	r, ok := o.memo[k]
+	o.mu.Unlock()
+	if ok {
 		return r, nil
 	}
-	one := func() (Resp, error) {
-		// "freshly constructed" includes the process-global transport.pool:
-		// two collections empty a sync.Pool (primary and victim cache)
-		if o.dirty {
-			runtime.GC()
-			runtime.GC()
-			o.dirty = false
-		}
-		if !cr.WS && cr.Method == "POST" {
-			defer func() { o.dirty = true }()
-		}
-		ls := startServerCfg(cr.Cfg)
-		defer ls.close()
-		c := newClient(ls)
-		defer c.close()
-		r, _, err := c.do(cr, "oracle")
-		return r, err
-	}
-	r, err := one()
+	r, err := freshProcess(cr)
 	if err != nil {
 		return r, err
 	}
+	o.mu.Lock()
 	o.n++
+	n := o.n
 	o.memo[k] = r
-	// deterministic? ask a second fresh server (every fourth request)
-	if o.n%4 == 1 {
-		r2, err := one()
+	o.mu.Unlock()
+	// deterministic? ask a second fresh process (every fourth request)
+	if n%4 == 1 {
+		r2, err := freshProcess(cr)
 		if err != nil {
 			return r, err
 		}
@@ -459,6 +451,35 @@ func (o *oracle) alone(cr Concrete) (Resp, error) {
 		}
 	}
 	return r, nil
+}
+
+// fill answers the requests with `workers` fresh processes at a time.
+func (o *oracle) fill(crs []Concrete, workers int, each func(cr Concrete, err error)) {
+	ch := make(chan Concrete, len(crs))
+	seen := map[string]bool{}
+	for _, cr := range crs {
+		if k := cr.key(); !seen[k] {
+			seen[k] = true
+			ch <- cr
+		}
+	}
+	close(ch)
+	var wg sync.WaitGroup
+	var emu sync.Mutex
+	for w := 0; w < workers; w++ {
+		wg.Add(1)
+		go func() {
+			defer wg.Done()
+			for cr := range ch {
+				if _, err := o.alone(cr); err != nil {
+					emu.Lock()
+					each(cr, err)
+					emu.Unlock()
+				}
+			}
+		}()
+	}
+	wg.Wait()
 }
 
 // disagree: two freshly constructed servers answered the same single request differently.
